@@ -51,10 +51,10 @@ impl OutputFormat for CtrlA {
                 let ch = buf.get_char(pos);
 
                 if ch.attribute != last_attr {
-                    let is_bold = ch.attribute.get_foreground() > 7;
+                    let is_bold = ch.attribute.get_shown_foreground() > 7;
                     let high_bg = ch.attribute.get_background() > 7;
                     let is_blink = ch.attribute.is_blinking();
-                    let mut last_fore = last_attr.get_foreground();
+                    let mut last_fore = last_attr.get_shown_foreground();
                     let mut last_back = last_attr.get_background();
 
                     if !is_bold && was_bold || !high_bg && was_high_bg || !is_blink && was_blink {
@@ -77,9 +77,9 @@ impl OutputFormat for CtrlA {
                         result.extend_from_slice(b"\x01I");
                     }
 
-                    if ch.attribute.get_foreground() != last_fore {
+                    if ch.attribute.get_shown_foreground() != last_fore {
                         result.push(1);
-                        result.push(ctrla::FG[ch.attribute.get_foreground() as usize % 8]);
+                        result.push(ctrla::FG[ch.attribute.get_shown_foreground() as usize % 8]);
                     }
                     if ch.attribute.get_background() != last_back {
                         result.push(1);
